@@ -44,8 +44,12 @@ def make_gsc(kind, w):
 
 def h_run(P, kinds, props, steps=3, mech="nbc", hibernation=True, L=2, generations=2, gsc="false", use_run=False, maximize=False,
           max_consultations=40, pop=4, seed=1, objective="smooth"):
+    deme_filters = "limit1"
+    if mech == "stub-multi":
+        # a generator offering two candidates for an arbitrary subset of parents, no per-deme limit: several sprouts per parent and round
+        mech, deme_filters = "stub", "none"
     w = build(P, kinds, [], L=L, hibernation=hibernation, generations=generations, mech=mech, warm=0, maximize=maximize, pop=pop, seed=seed,
-              objective=objective)
+              objective=objective, deme_filters=deme_filters)
     tree = w.tree
     w.sym_cma_stop = False
     go_symbolic(w, free_flags=False)
@@ -211,7 +215,7 @@ def run_cases(prop, tier, hib_values=(False, True)):
     cs = []
     steps = 4 if tier == "quick" else 6
     combos = [(("ea", "cma"), "nbc-default", 10), (("ea", "cma"), "simple", 4), (("de", "ea", "cma"), "nbc", 4), (("ea", "local"), "nbc", 4),
-              (("ea", "local"), "simple:terrace", 4)]
+              (("ea", "local"), "simple:terrace", 4), (("ea", "cma"), "stub-multi", 4)]
     if tier != "quick":
         combos += [(("shade", "cma"), "nbc", 4), (("ea", "ea", "local"), "simple", 4), (("lhs", "cma"), "nbc", 4), (("sobol", "de"), "simple", 4)]
     for kinds, mech, pop in combos:
